@@ -4,6 +4,7 @@
 # evidence goes to /var/tmp/dev-evidence. NOCONFIRM=1 skips the native replay.
 cd /verif
 id=$1; shift
+[ -d /var/tmp/repo-clean ] || git -C /repo worktree add -q --detach /var/tmp/repo-clean HEAD || exit 3   # scratch worktree (remove with: git -C /repo worktree remove --force /var/tmp/repo-clean)
 git -C /var/tmp/repo-clean checkout -q -- . && git -C /var/tmp/repo-clean apply /verif/seeded/$id/patch.diff || exit 3
 for p in "$@"; do
   out=$(VERIF_REPO=/var/tmp/repo-clean VERIF_NOCONFIRM=${NOCONFIRM:-} VERIF_EVIDENCE_DIR=/var/tmp/dev-evidence VERIF_JOBS=${VERIF_JOBS:-6} ./check $p --tier ${TIER:-quick} 2>&1); rc=$?
